@@ -291,3 +291,198 @@ def strip_events(line):
 
 def events_only(line):
     return ' ; '.join(s.strip() for s in line.split(' ; ') if s.strip().startswith('EV '))
+
+
+# ------------------------------------------------------------------ parameter / class variation (audit-2 #11)
+#
+# Every parameter the inner solvers read, non-default values included; the keys are the ones the harnesses
+# (solver_run.hpp `set_common_params`, solvers_<s>.cpp, solver_pantr.hpp, solvers_ocp.cpp) and the Lean drivers
+# (Driver/Loop*.lean) both read, so the trace replay follows every one of them.
+
+EPS10 = 10 * EPS
+DEFAULTS = {
+    'Lgf': 0.95, 'lipeps': 1e-6, 'lipdelta': 1e-12, 'Lmin': 1e-5, 'Lmax': 1e20, 'qubtol': EPS10, 'lstol': EPS10,
+    'trtol': EPS10, 'beta': 0.95, 'minls': 1. / 256, 'lsupd': 0.5, 'maxnp': 10,
+}
+# per solver: (key, non-default values) — 0/1 switches are listed with both values
+PARAM_SPACE = {
+    'panoc': {'beta': [0.5, 0.05, 1.0, 0.999], 'Lgf': [0.5, 0.25, 0.99, 1.0], 'minls': [0.25, 2.0 ** -20, 0.6],
+              'lsupd': [0.25, 0.9], 'lipeps': [1e-3, 1e-9], 'lipdelta': [1e-6, 1e-3], 'Lmin': [1.0, 16.0],
+              'Lmax': [64.0, 1024.0], 'force': [0, 1], 'updcand': [0, 1], 'recomp': [0, 1], 'eager': [0, 1]},
+    'zerofpr': {'beta': [0.5, 0.05, 1.0, 0.999], 'Lgf': [0.5, 0.25, 0.99, 1.0], 'minls': [0.25, 2.0 ** -20, 0.6],
+                'lipeps': [1e-3, 1e-9], 'lipdelta': [1e-6, 1e-3], 'Lmin': [1.0, 16.0], 'Lmax': [64.0, 1024.0],
+                'force': [0, 1], 'updcand': [0, 1], 'updprox': [0, 1], 'recomp': [0, 1]},
+    'pantr': {'Lgf': [0.5, 0.25, 0.99], 'lipeps': [1e-3, 1e-9], 'lipdelta': [1e-6, 1e-3], 'Lmin': [1.0, 16.0],
+              'Lmax': [64.0, 1024.0], 'approx': [0, 1], 'rationew': [0, 1], 'updprox': [0, 1], 'recomp': [0, 1],
+              'noaccel': [0, 1], 'fd': [0, 1]},
+    'fista': {'Lgf': [0.5, 0.25, 0.99, 1.0], 'lipeps': [1e-3, 1e-9], 'lipdelta': [1e-6, 1e-3], 'noacc': [0, 1]},
+    'ocp': {'beta': [0.5, 0.05, 1.0, 0.999], 'Lgf': [0.5, 0.25, 0.99, 1.0], 'minls': [0.25, 2.0 ** -20],
+            'lipeps': [1e-3, 1e-9], 'lipdelta': [1e-6, 1e-3], 'Lmin': [1.0, 16.0], 'Lmax': [64.0, 1024.0],
+            'gnint': [0, 1, 2, 3], 'gnsticky': [0, 1], 'resetgn': [0, 1], 'noaccel': [0, 1]},
+}
+SWITCHES = {'force', 'updcand', 'updprox', 'recomp', 'eager', 'approx', 'rationew', 'noaccel', 'noacc', 'fd',
+            'gnint', 'gnsticky', 'resetgn'}
+TOL_CLASSES = {'zero': 0.0, 'negative': -1.0, 'inf': INF, 'nan': float('nan')}
+NONDYADIC = [0.3, 1.7, 10.0, 123.456, 0.01, 3.0, 7.5e-1, 1e3]
+
+
+def vary_params(rng, op, solver, p_each=0.18):
+    """Give every numeric parameter of `solver` a non-default value with probability `p_each` (independently), keep
+    the switches the solver's own generator drew.  L_min ≤ L_max is kept; FISTA's fixed-step mode (L_min = L_max) and
+    a tiny-L_max (`wild`) ZeroFPR run are left alone."""
+    space = PARAM_SPACE[solver]
+    fixed_fista = solver == 'fista' and op.get('Lmin') is not None and op.get('Lmin') == op.get('Lmax')
+    for k, vals in space.items():
+        if k in SWITCHES:
+            if k not in op and k != 'fd':
+                op[k] = str(rng.choice(vals))
+            continue
+        if k in ('Lmin', 'Lmax') and (fixed_fista or (k == 'Lmax' and op.flt('Lmax', 1e20) < 1e19)):
+            continue
+        if rng.random() < p_each:
+            op[k] = f2h(rng.choice(vals))
+    if op.flt('Lmin', 1e-5) > op.flt('Lmax', 1e20):
+        op['Lmin'] = f2h(op.flt('Lmax', 1e20))
+        if solver == 'fista':
+            op['Lmin'] = f2h(1e-5)           # do not create the fixed-step mode by accident
+    return op
+
+
+def vary_tolerance(rng, op, p=0.1):
+    """tolerance ∈ {0, < 0, +inf, NaN} (10 %: `tolerance > 0 ? tolerance : 1e-8`; NaN and inf are legal doubles) and
+    max_no_progress ∈ {0, 1, 2, 10} (0 is legal since /repo f7343661f)."""
+    if rng.random() < p:
+        op['tol'] = f2h(rng.choice(list(TOL_CLASSES.values())))
+    op['maxnp'] = str(rng.choice([0, 1, 2, 10]))
+    return op
+
+
+def vary_sigma(rng, op, key='Sig', p=0.4):
+    """Penalty weights / multipliers that are not powers of two (rounding in ŷ = Σ(ζ − Π_D ζ), err_z = (ŷ − y)/Σ)."""
+    if rng.random() < p:
+        v = op.vec(key)
+        op[key] = kvvec([rng.choice(NONDYADIC) if rng.random() < 0.7 else a for a in v])
+        y = op.vec('y0')
+        op['y0'] = kvvec([(a * rng.choice([1.0, 0.3, 1.1])) for a in y])
+    return op
+
+
+def status_class(rng, op, p_np=0.12, p_nf=0.05):
+    """Starts that reach NoProgress (a corner of a — possibly degenerate — box with tolerance 1e-300) and NotFinite
+    (an astronomically large start: the quartic / its gradient overflow) on the polynomial problems."""
+    r = rng.random()
+    if r < p_np:
+        op.update({'maxnp': str(rng.choice([0, 1, 2, 3])), 'tol': f2h(1e-300), 'maxiter': str(rng.choice([20, 60])),
+                   'nanat': '0', 'stopat': '0', 'stopcb': '0', 'oot': '0'})
+        lb, ub = op.vec('Clb'), op.vec('Cub')
+        x0 = op.vec('x0')
+        for i in range(len(x0)):
+            if math.isfinite(lb[i]):
+                x0[i] = lb[i]
+                if rng.random() < 0.5:
+                    ub[i] = lb[i]
+            elif math.isfinite(ub[i]):
+                x0[i] = ub[i]
+        op['x0'] = kvvec(x0); op['Cub'] = kvvec(ub)
+    elif r < p_np + p_nf:
+        sc = 10.0 ** rng.choice([90, 100, 120, 160])
+        op['x0'] = kvvec([(a if a != 0 else 1.0) * sc for a in op.vec('x0')])
+        n = op.nat('n')
+        op['Clb'] = kvvec([-INF] * n); op['Cub'] = kvvec([INF] * n)
+        op['q4'] = kvvec([max(a, 0.5) for a in op.vec('q4')])
+        op['nanat'] = '0'; op['stopat'] = '0'; op['stopcb'] = '0'
+    return op
+
+
+def vary_all(rng, op, solver):
+    """The variation every loop-level check applies on top of a solver's own run generator."""
+    vary_params(rng, op, solver)
+    vary_tolerance(rng, op)
+    if solver == 'ocp':
+        vary_sigma(rng, op, key='mu')
+    else:
+        vary_sigma(rng, op)
+        status_class(rng, op)
+    return op
+
+
+def coverage_classes(solver, op_line, out_line):
+    """The classes a run exercises: exit status, criterion, tolerance class, max_no_progress = 0, non-dyadic Σ / μ,
+    and — for runs with at least one iteration — each parameter at a non-default value / each switch value."""
+    op = Op.parse(op_line)
+    t = out_line.split(' ; ')[0].split()
+    out = set()
+    if len(t) < 3 or t[0] != 'S':
+        return out
+    if t[1] == 'exception':
+        out.add('status:exception')
+        return out
+    out.add('status:' + t[1])
+    crit = op.nat('crit', 0)
+    out.add('crit:' + CRITS[crit])
+    tol = op.flt('tol', 1e-8)
+    out.add('tol:' + ('nan' if tol != tol else 'inf' if tol == INF else 'zero' if tol == 0 else
+                      'negative' if tol < 0 else 'positive'))
+    if op.nat('maxnp', 10) == 0:
+        out.add('maxnp:0')
+    sig = op.vec('mu' if solver == 'ocp' else 'Sig')
+    if any(a > 0 and math.frexp(a)[0] != 0.5 for a in sig):
+        out.add('sigma:nondyadic')
+    try:
+        iters = int(t[2])
+    except ValueError:
+        iters = 0
+    if iters >= 1:
+        for k in PARAM_SPACE[solver]:
+            if k in SWITCHES:
+                if k in op:
+                    out.add(f'param:{k}={op[k]}')
+            elif k in op and f2h(op.flt(k)) != f2h(DEFAULTS.get(k, float('nan'))):
+                out.add(f'param:{k}:nondefault')
+    return out
+
+
+def required_classes(solver):
+    """What a thorough run of a loop-level check must have exercised for `solver` (a missing class is a broken tie:
+    the check's verdict does not cover it)."""
+    req = {'status:Converged', 'status:MaxIter', 'status:Interrupted', 'status:NotFinite', 'status:MaxTime',
+           'tol:positive', 'tol:zero', 'tol:negative', 'tol:inf', 'tol:nan', 'maxnp:0', 'sigma:nondyadic'}
+    if solver != 'pantr':
+        req.add('status:NoProgress')                     # pantr.tpp never updates no_progress
+    if solver == 'ocp':
+        req |= {'crit:' + c for c in CRITS if c in ('ProjGradNorm', 'ProjGradNorm2', 'ProjGradUnitNorm',
+                                                    'ProjGradUnitNorm2', 'FPRNorm', 'FPRNorm2')}
+        req.add('status:exception')                      # the four unsupported criteria
+    else:
+        req |= {'crit:' + c for c in CRITS}
+    for k, vals in PARAM_SPACE[solver].items():
+        if k in SWITCHES:
+            req |= {f'param:{k}={v}' for v in vals}
+        else:
+            req.add(f'param:{k}:nondefault')
+    return req
+
+
+class Coverage:
+    """Per-solver class accounting of a check; `report` turns missing required classes into broken ties (thorough)
+    or notes (quick)."""
+
+    def __init__(self):
+        self.seen = {}
+
+    def add(self, solver, op_line, out_line):
+        self.seen.setdefault(solver, set()).update(coverage_classes(solver, op_line, out_line))
+
+    def report(self, rep, broken, tier, solvers, ignore=()):
+        cov = {}
+        for s in solvers:
+            seen = self.seen.get(s, set())
+            missing = sorted(c for c in required_classes(s) - seen if c not in ignore)
+            cov[s] = {'exercised': len(seen), 'required': len(required_classes(s)), 'missing': missing}
+            if missing:
+                msg = f'[{s}] required coverage classes never exercised: {", ".join(missing)}'
+                if tier == 'thorough':
+                    broken.append(msg)
+                else:
+                    rep.note('coverage (quick tier, not enforced): ' + msg)
+        rep.cov['required_coverage'] = cov
